@@ -1,4 +1,4 @@
 SPECIFICATION Spec
-CONSTANTS N = 4  Objs = 2  MaxParts = 2  MaxStores = 2  Fix <- FixNone  SameSecond = TRUE
+CONSTANTS N = 4  Objs = 2  MaxParts = 2  MaxStores = 2  Fix <- FixCur  SameSecond = TRUE
 INVARIANTS CrashSafe
 CHECK_DEADLOCK FALSE
